@@ -165,6 +165,8 @@ type recDB struct {
 	on   bool
 	keys [][]byte
 	was  []string
+	// the key of the state record most recently put through a batch (Save), copied
+	lastStateKey []byte
 }
 
 func (r *recDB) note(k []byte) {
@@ -185,10 +187,26 @@ func (r *recDB) NewBatch() kaidb.Batch        { return &recBatch{Batch: r.Databa
 
 type recBatch struct {
 	kaidb.Batch
-	r *recDB
+	r        *recDB
+	shortest []byte
 }
 
-func (b *recBatch) Put(k, v []byte) error { b.r.note(k); return b.Batch.Put(k, v) }
+// The state record is the one with the shortest key of a Save batch (prefix + 8 height bytes; the
+// validator and params records end in a 32-byte hash) — no prefix is spelled out here.
+func (b *recBatch) Put(k, v []byte) error {
+	b.r.note(k)
+	if b.shortest == nil || len(k) < len(b.shortest) {
+		b.shortest = append([]byte(nil), k...)
+	}
+	return b.Batch.Put(k, v)
+}
+func (b *recBatch) Write() error {
+	b.r.mu.Lock()
+	b.r.lastStateKey = b.shortest
+	b.r.mu.Unlock()
+	b.shortest = nil
+	return b.Batch.Write()
+}
 func (b *recBatch) Delete(k []byte) error { b.r.note(k); return b.Batch.Delete(k) }
 
 // changed returns the first kept key whose bytes are no longer what they were when it was used.
@@ -260,7 +278,8 @@ type env struct {
 	hashOf      map[string]common.Hash         // membership -> ValidatorSet.Hash()
 	deletedBy   map[string]int                 // membership -> index of the prune after which its record was gone
 	txNonce     uint64
-	fam         string // classic | jump | wild | nohead
+	stateKeys   map[string]uint64 // state-record key bytes -> height saved under them
+	fam         string            // classic | jump | wild | nohead
 	legacy      bool   // the genesis state was re-saved with InitialHeight 0 (record of an older version)
 }
 
@@ -934,7 +953,7 @@ func (e *env) concFinish(x *expect, fails *concFails) {
 
 func runCase(o *out.Out, r *gen.Rand, c int) {
 	e := &env{o: o, r: r, saved: map[uint64]*cstate.LatestBlockState{}, vkeys: map[string]bool{}, pkeys: map[string]bool{},
-		lastWritten: map[string]*types.ValidatorSet{}, pruned: map[uint64]bool{}, hashOf: map[string]common.Hash{}, deletedBy: map[string]int{}}
+		lastWritten: map[string]*types.ValidatorSet{}, pruned: map[uint64]bool{}, hashOf: map[string]common.Hash{}, deletedBy: map[string]int{}, stateKeys: map[string]uint64{}}
 	e.rec = &recDB{Database: memorydb.New(), on: true}
 	e.db = e.rec
 	e.store = cstate.NewStore(e.rec)
@@ -1066,6 +1085,7 @@ func runCase(o *out.Out, r *gen.Rand, c int) {
 		if e.saved[e.head] == nil {
 			// fresh database: the genesis state was created and saved
 			if e.head == 0 {
+				e.saveObs(0)
 				e.saved[0] = copyState(st)
 				e.noteSave(e.saved[0])
 				if stateObs(&st) != stateObs(&gst) {
@@ -1231,7 +1251,11 @@ func runCase(o *out.Out, r *gen.Rand, c int) {
 				mal = 1 + r.Intn(3)
 				o.Count(fmt.Sprintf("wild.malformed.%d", mal))
 			}
+			wildRefused = ""
 			nvs := wildSet(r, e.cur.NextValidators, mal, !wildBig)
+			if wildRefused != "" {
+				o.Fail(e.step, "fromproto-refused-valid-set", fmt.Sprintf("ValidatorSetFromProto refused a set without negative voting power (%s): %s", wildRefused, setObs(nvs)))
+			}
 			if len(nvs.Validators) >= 100 {
 				wildBig = true // one large set per case is enough
 				o.Count("wild.large-set")
@@ -1286,7 +1310,7 @@ func runCase(o *out.Out, r *gen.Rand, c int) {
 			e.o.Fail(e.step, "save-panic", "Save panicked: "+pc)
 			return
 		}
-		e.o.Op("S", "s ok")
+		e.o.Op("S", e.saveObs(h))
 		e.saved[h] = copyState(ns)
 		delete(e.pruned, h)
 		e.noteSave(e.saved[h])
@@ -1298,7 +1322,7 @@ func runCase(o *out.Out, r *gen.Rand, c int) {
 				e.o.Fail(e.step, "save-panic", "second Save of the same state panicked: "+pc)
 				return
 			}
-			e.o.Op("S", "s ok")
+			e.o.Op("S", e.saveObs(h))
 			e.noteSave(e.saved[h])
 			if after := e.snapshot(); !snapEqual(before, after) {
 				e.o.Fail(e.step, "resave-changed-store", fmt.Sprintf("height=%d: saving the same state twice changed what is loaded: before=[%s] after=[%s]", h, before.load, after.load))
